@@ -16,7 +16,7 @@ import warnings
 import numpy as np
 
 from ..kit import cal, simfs
-from ..kit.core import World, Violation, HarnessError, canon, sha1
+from ..kit.core import World, Violation, HarnessError, canon, sha1, strip_traceback
 from . import series_model as sm
 from .series_model import SM, Exp
 from .series import (P, freq_letter_of, nan_list, from_nan_list, snapshot, model_from_real, conforms,
@@ -665,10 +665,12 @@ class DataboxWorld(World):
                 r = thunk()
                 status = "ok"
             except simfs.SimCrash as e:
+                strip_traceback(e)
                 r, status = e, "crashed"
             except Exception as e:
                 if isinstance(e, (Violation, HarnessError)):
                     raise
+                strip_traceback(e)
                 r, status = e, "raised"
         finally:
             fired = self.fs.end_step()
